@@ -66,7 +66,7 @@ def build_harness(race=False):
     cmd = ["go", "build", "-tags", "verif", "-o", outp]
     if os.environ.get("VERIF_COVER") and not race:
         # authoring aid (tools/coverage.sh): which functions of /repo does the harness reach? needs GOCOVERDIR in the environment
-        cmd[2:2] = ["-cover", "-coverpkg=github.com/WICG/webpackage/go/..."]
+        cmd[2:2] = ["-cover", "-coverpkg=./...,github.com/WICG/webpackage/go/..."]
     if race:
         env["CGO_ENABLED"] = "1"
         cmd.insert(2, "-race")
